@@ -1,2 +1,63 @@
-(* C01 — property theorems (being built). *)
-From Klog Require Import Base.Prelude Model.Lines Model.Parser.
+(* C01 — the parser accepts exactly spec-conforming files and extracts the denoted data.
+   Property theorems only; each is closed by [exact <lemma>] and followed by Print Assumptions.
+   The specification is the formal object Spec/Spec.v (syntax tree, wf, render, denote).
+
+   LAYER REACHED: L1 (value literals and the entry value line). The record level (L2), the document level (L3, the
+   statement C01_parse_conforming) and the rejection theorems (L4) are not yet stated here. *)
+From Klog Require Import Base.Prelude Base.Utf8 Model.Calendar Model.Values Model.Record Model.Lines Model.Parser
+  Spec.Spec Proofs.SpecValues Proofs.SpecEntry.
+Open Scope Z_scope.
+
+(* ---------- L0: value literals ---------- *)
+
+(* every time literal of the specification (optional leading zero, 24-hour / am / pm, 24:00 and <24:00, shifts) *)
+Theorem C01_time_literal_partial : forall t, wf_time t = true -> parse_time (render_time t) = Ok (denote_time t).
+Proof. exact parse_render_time. Qed.
+Print Assumptions C01_time_literal_partial.
+
+(* every date literal: all Gregorian dates 0000-9999, both separators *)
+Theorem C01_date_literal_partial : forall d, wf_date d = true -> parse_date (render_date d) = Ok (denote_date d).
+Proof. exact parse_render_date. Qed.
+Print Assumptions C01_date_literal_partial.
+
+(* every duration literal (sign x optional hours x optional minutes, any leading zeros, minutes < 60 when hours are
+   present) whose amount fits int64 *)
+Theorem C01_duration_literal_partial : forall d, wf_dur d = true -> parse_duration (render_dur d) = Ok (denote_dur d).
+Proof. exact parse_render_dur. Qed.
+Print Assumptions C01_duration_literal_partial.
+
+(* the int64 guard of wf_dur is exact: beyond it the value constructor panics (finding K5) *)
+Theorem C01_duration_literal_overflow_refuted : forall d, dur_shape d = true -> max_int64 < dur_amount d ->
+  exists c, parse_duration (render_dur d) = Crash c.
+Proof. exact parse_render_dur_overflow. Qed.
+Print Assumptions C01_duration_literal_overflow_refuted.
+
+(* ---------- L1: the value on an entry line ---------- *)
+
+(* after any prefix (the indentation), followed by the end of the line or one space and arbitrary text *)
+Theorem C01_entry_value_partial : forall ln pre v tail, wf_value v = true -> tail_ok tail ->
+  parse_entry_value ln (pre ++ render_value v ++ tail) (length pre)
+  = ev_of (denote_value v) (length pre) (length pre + length (render_value v)).
+Proof. exact parse_entry_value_spec. Qed.
+Print Assumptions C01_entry_value_partial.
+
+(* ---------- non-vacuity ---------- *)
+
+Example C01_time_nonvacuous :
+  wf_time {| st_shift := -1; st_hh := 24; st_pad := false; st_mm := 0; st_clock := C24 |} = true
+  /\ render_time {| st_shift := -1; st_hh := 24; st_pad := false; st_mm := 0; st_clock := C24 |} = b!"<24:00"
+  /\ wf_time {| st_shift := 1; st_hh := 9; st_pad := true; st_mm := 5; st_clock := CPm |} = true
+  /\ render_time {| st_shift := 1; st_hh := 9; st_pad := true; st_mm := 5; st_clock := CPm |} = b!"09:05pm>".
+Proof. repeat split; reflexivity. Qed.
+
+Example C01_duration_nonvacuous :
+  wf_dur {| du_sign := SMinus; du_h := Some b!"007"; du_m := Some b!"05" |} = true
+  /\ render_dur {| du_sign := SMinus; du_h := Some b!"007"; du_m := Some b!"05" |} = b!"-007h05m"
+  /\ d_mins (denote_dur {| du_sign := SMinus; du_h := Some b!"007"; du_m := Some b!"05" |}) = -425.
+Proof. repeat split; reflexivity. Qed.
+
+Example C01_entry_value_nonvacuous :
+  let v := SRange {| st_shift := -1; st_hh := 11; st_pad := false; st_mm := 30; st_clock := CPm |} 0 2
+                  {| st_shift := 0; st_hh := 24; st_pad := false; st_mm := 0; st_clock := C24 |} in
+  wf_value v = true /\ render_value v = b!"<11:30pm-  24:00" /\ tail_ok b!" 8:00-9:00 1h".
+Proof. repeat split; reflexivity. Qed.
